@@ -356,6 +356,9 @@ STR_CASES = [
     ('Annotated["a", "meta b"]', None),  # unspecified by the property (second argument is arbitrary metadata): not judged
     ('Literal["a"] | "b"', 'Literal["a"] | b'),
     ('tuple["a", ...]', "tuple[a, ...]"),
+    # strings whose whole text is a keyword (not an expression: they stay strings) or the name of a constant (code, but no name is referenced)
+    ('"in"', '"in"'), ('"class"', '"class"'), ('list["or"]', 'list["or"]'), ('Annotated[a, "in"]', 'Annotated[a, "in"]'),
+    ('"None"', "None"), ('"True"', "True"), ('Optional["None"]', "Optional[None]"), ('dict["a", "None"]', "dict[a, None]"), ('"..."', "..."),
 ]
 STR_HEAD = ("import typing, typing_extensions\nimport typing as t\nimport typing_extensions as te\nfrom typing import Literal, Optional, Annotated\n"
             "from typing import Literal as L\nfrom typing_extensions import Literal as TL\n")
@@ -393,7 +396,17 @@ def _run_strings(griffe, acc):
                     expect_parsed = slot in ANN_SLOTS and not future
                     exp = parsed if expect_parsed else src_ann
                     case = {"annotation": src_ann, "slot": slot, "future": future, "where": where}
-                    ok = stored is not None and _same(ast.parse(str(stored), mode="eval").body, ast.parse(exp, mode="eval").body)
+                    try:
+                        ok = stored is not None and _same(ast.parse(str(stored), mode="eval").body, ast.parse(exp, mode="eval").body)
+                    except SyntaxError:
+                        ok = False  # (what is stored does not even render to Python)
+                    if ok and not isinstance(stored, str):
+                        # every referenced name is a name element -- and nothing else is (a constant or a string is not a name)
+                        got_names = sorted(n.name for n in stored.iterate(flat=True) if type(n).__name__ == "ExprName")
+                        exp_tree = ast.parse(exp, mode="eval")
+                        want_names = sorted([n.id for n in ast.walk(exp_tree) if isinstance(n, ast.Name)] + [n.attr for n in ast.walk(exp_tree) if isinstance(n, ast.Attribute)])
+                        if got_names != want_names:
+                            acc.violation(f"strings/names/{slot}/{'future' if future else 'nofuture'}", f"{src_ann} in {slot}: name elements {got_names}, the expression references {want_names}", case)
                     acc.case(case, outcome=("parsed" if expect_parsed else "verbatim") + (":ok" if ok else ":bad"), nontrivial=True)
                     if not ok:
                         lit = "literal" if any(sp + "[" in src_ann for sp in LIT_SPELLINGS) else "plain"
